@@ -59,6 +59,9 @@ def shard(s):
             for pat in ("+" * N, ("+-" * N)[:N - 1] + "+", "+" + "0" * (N - 2) + "-", "-" + "0+" * ((N - 2) // 2) + "0" * ((N - 2) % 2) + "-"):
                 if len(pat) == N:
                     _consume(acc, R.spell_rotating(pat, N))
+    elif kind == "DB":
+        for pat in spaces.window_complete_chunks(R.SYM, 6, s[1]):
+            _consume(acc, R.spell_rotating(pat, len(pat)))
     elif kind == "LONG":
         for pat in spaces.long_family(s[1]):
             _consume(acc, R.spell_rotating(pat, s[1]))
@@ -75,6 +78,7 @@ def run(tier, seed, t0):
     shards += [("R", N, 3) for N in range(RN, 1, -1)]
     LN = (64, 127, 128, 129, 200, 256, 257, 513) if tier == "quick" else (64, 127, 128, 129, 200, 255, 256, 257, 300, 400, 512, 700, 1000)
     shards += [("LONG", N) for N in LN]
+    shards += [("DB", (L_,)) for L_ in ((23, 47, 97) if tier == "quick" else (17, 23, 31, 47, 61, 97, 150, 301))]
     SC = 200 if tier == "quick" else 520
     shards = [("SCAN", SC, "up"), ("SCAN", SC, "down")] + shards
     acc = core.pmap(shard, shards)
